@@ -2109,4 +2109,33 @@ theorem fmtIntList_repr_independent (xs ys : List NInt) (h : xs.map NInt.val = y
     rw [h1, h2, h]
   rw [this]
 
+/-! ## 19. format strings with several interpolations: flags are per slot -/
+
+/-- a format string renders as the concatenation of the single-slot renderings (each with its own
+flags, defaults where none are written) and the literal text in between — flags of one
+interpolation never leak into the next -/
+theorem fmtSlots_eq_spec (sl : List (Flags × NInt × Str)) :
+    fmtSlots sl = sl.flatMap fun (fl, x, lit) => padTo fl.align fl.pad fl.padLength (showFmt fl.base x.val) ++ lit := by
+  induction sl with
+  | nil => rfl
+  | cons a t ih =>
+    obtain ⟨fl, n, lit⟩ := a
+    simp only [fmtSlots, List.flatMap_cons, ih, fmtNumWith_eq_spec, List.append_assoc]
+
+/-- in particular a slot without flags is the plain decimal text, whatever precedes it -/
+theorem fmtSlots_default_after (fl : Flags) (a b : NInt) (lit : Str) :
+    fmtSlots [(fl, a, lit), ({}, b, [])] = fmtNumWith fl a ++ lit ++ showInt false 10 b.val := by
+  simp only [fmtSlots, List.append_nil]
+  congr 1
+  rw [fmtNumWith_eq_spec]
+  simp [padTo, showFmt, FmtBase.upper, FmtBase.radix]
+
+theorem fmtSlots_repr_independent (fl : Flags) (a b : NInt) (lit : Str) (rest : List (Flags × NInt × Str))
+    (h : a.val = b.val) : fmtSlots ((fl, a, lit) :: rest) = fmtSlots ((fl, b, lit) :: rest) := by
+  simp only [fmtSlots, fmtNumWith_repr_independent fl a b h]
+
+theorem fmtDict1_eq_spec (key : Str) (v : NInt) :
+    fmtDict1 key v = [123, 34] ++ key ++ [34, 58, 32] ++ showInt false 10 v.val ++ [125] := by
+  unfold fmtDict1; rw [reprNInt_eq_spec]
+
 end Noulith.C16
